@@ -179,12 +179,12 @@ impl<'s, M: Matcher, S: Sink> MultiLine<'s, M, S> {
                             // An empty range is never reported as a match
                             // (see sink_matched), so it must not produce
                             // context lines either.
-                            if !last_match.is_empty()
-                                && self.sink_context(&last_match)?
-                            {
-                                self.sink_matched(&last_match)?;
+                            if last_match.is_empty() {
+                                true
+                            } else {
+                                self.sink_context(&last_match)?
+                                    && self.sink_matched(&last_match)?
                             }
-                            true
                         }
                     };
                 }
